@@ -1,5 +1,5 @@
 /-
-C08 — invariant preservation, part StepUp2.
+C08 — invariant preservation, part StepUp3.
 -/
 import LndModel.C08.Lemmas
 
@@ -11,20 +11,19 @@ namespace LndModel.C08
 variable {P Hsh : Type} [DecidableEq P] [DecidableEq Hsh] (H : P → Hsh) (hash : Hsh)
 
 set_option maxHeartbeats 4000000 in
-theorem inv_upSigBob {s s' : Pair P} (hI : Inv H hash s) (h : step H hash s (.upSigBob) = some s') :
+theorem inv_upSignPersist {s s' : Pair P} (hI : Inv H hash s) (h : step H hash s (.upSignPersist) = some s') :
     Inv H hash s' := by
   obtain ⟨a1, a2, a3, a4, a5, a6, a7, a8, a9, a10, a11, a12, a13, a14, a15, a16, a17, a18, a19, a20, a21, a22, a23, a24, a25, a26, a27, a28, a29, a30, a31, a32, a33, a34, a35⟩ := hI
   rcases s with ⟨up, down, decided, fwdFilter, addAcked, circ, keystone, circRef, upDur, delPending, downDur, resp, respAcked, mbAdd, mbResp, mbRef, respRef, known, sentUp, downAdds, envBad⟩
   dsimp only at *
-  rcases up with _ | st | _ | ⟨r, st⟩ | r <;> (try cases st) <;> simp only [LndModel.C08.step, stepUpSigBob, Life.sigR] at h <;> (try split at h) <;> cases h <;> constructor <;> life_grind
+  rcases up with _ | st | _ | ⟨r, st⟩ | r <;> (try cases st) <;> cases circ <;> simp only [LndModel.C08.step, stepUpSignPersist] at h <;> (try split at h) <;> cases h <;> constructor <;> life_grind
 
 set_option maxHeartbeats 4000000 in
-theorem inv_upRevBob {s s' : Pair P} (hI : Inv H hash s) (h : step H hash s (.upRevBob) = some s') :
+theorem inv_resendUp {s s' : Pair P} (hI : Inv H hash s) (h : step H hash s (.resendUp) = some s') :
     Inv H hash s' := by
   obtain ⟨a1, a2, a3, a4, a5, a6, a7, a8, a9, a10, a11, a12, a13, a14, a15, a16, a17, a18, a19, a20, a21, a22, a23, a24, a25, a26, a27, a28, a29, a30, a31, a32, a33, a34, a35⟩ := hI
   rcases s with ⟨up, down, decided, fwdFilter, addAcked, circ, keystone, circRef, upDur, delPending, downDur, resp, respAcked, mbAdd, mbResp, mbRef, respRef, known, sentUp, downAdds, envBad⟩
   dsimp only at *
-  simp only [LndModel.C08.step] at h; cases h
-  rcases up with _ | st | _ | ⟨r, st⟩ | r <;> (try cases st) <;> dsimp only [Life.revR] at * <;> constructor <;> life_grind
+  rcases up with _ | st | _ | ⟨r, st⟩ | r <;> (try cases st) <;> simp only [LndModel.C08.step] at h <;> (try split at h) <;> (try cases h) <;> constructor <;> life_grind
 
 end LndModel.C08
